@@ -239,6 +239,11 @@ def make_origins() -> dict[str, Any]:
     ORIGINS["multi_files"] = MultiOrigin([ORIGINS["a_file"], ORIGINS["a_textfile"]])
     ORIGINS["gen_as_code"] = CodeOrigin(_SRC_A, EMPTY_CODE_RANGE)  # same fields as "gen", other origin class
     ORIGINS["multi_linecol"] = MultiOrigin([ORIGINS["a_linecol"], ORIGINS["c"]])
+    # members whose sources are equal but distinct objects (a parser creating one source object per token)
+    ORIGINS["multi_equal_sources"] = MultiOrigin([
+        CodeOrigin(MemoryTextSource(_raw="0123456789abcdef", source_uri="srcA"), get_code_range(1, 1, 1, 3, 1, 3)),
+        CodeOrigin(MemoryTextSource(_raw="0123456789abcdef", source_uri="srcA"), get_code_range(5, 1, 5, 7, 1, 7)),
+    ])
     return ORIGINS
 
 
@@ -279,6 +284,23 @@ def _restore_module_state() -> None:
         fn.cache_clear()
 
 
+FORCED_CONFIG: dict[str, Any] = {}
+
+
+def apply_forced_config() -> None:
+    """Diagnostic switches as an input (see vcheck.core._with_diagnostics)."""
+    import sys
+
+    from pyoak import config
+
+    config.TRACE_LOGGING = bool(FORCED_CONFIG.get("TRACE_LOGGING", False))
+    config.CODEGEN_DEBUG = bool(FORCED_CONFIG.get("CODEGEN_DEBUG", False))
+    for name in ("pyoak.legacy.node", "pyoak.node", "pyoak.tree", "pyoak.visitor", "pyoak.match.xpath", "pyoak.match.pattern"):
+        m = sys.modules.get(name)
+        if m is not None and isinstance(getattr(m, "TRACE_LOGGING", None), bool):
+            m.TRACE_LOGGING = config.TRACE_LOGGING
+
+
 def reset_all() -> None:
     """Per-path reset of every process-global registry / cache of pyoak."""
     if not _STATE_BASELINE:
@@ -298,6 +320,7 @@ def reset_all() -> None:
     Source.clear_registry()
     config.ID_DIGEST_SIZE = 8
     config.RUNTIME_TYPE_CHECK = False
+    apply_forced_config()
     setattr(DataClassSerializeMixin, "_DataClassSerializeMixin__serialization_options", {})
     setattr(DataClassSerializeMixin, "_DataClassSerializeMixin__mashumaro_dialect", None)
     import sys
@@ -547,6 +570,19 @@ class VDiamond(VSubLeaf, VMixLeaf):
 CLASSES["VMixLeaf"] = VMixLeaf
 CLASSES["VLateMix"] = VLateMix
 CLASSES["VDiamond"] = VDiamond
+@dataclass(frozen=True)
+class VFlags(VBase):
+    """Comparable properties declared with the dataclass field flags other than compare / init."""
+
+    h: int = field(default=0, hash=False)
+    r: int = field(default=0, repr=False)
+    m: int = field(default=0, metadata={"unit": "x"})
+    d: int = field(default_factory=lambda: 0)
+    k: int = field(default=0, kw_only=True)
+    nh: int = field(default=0, hash=True, compare=False)  # the reverse: hashed by dataclass, yet not comparable
+
+
+CLASSES["VFlags"] = VFlags
 _STAMPS = __import__("itertools").count(1)
 
 
